@@ -1,7 +1,346 @@
 package main
 
-// Replay of refuted obligations against the real code (filled in per family).
+// Replay of refuted obligations against the real code.
+//
+// Form A (one obligation = instruction kind + operand slot): the witness corpus
+// /verif/replay/corpus is loaded into SSA by a test that is injected into the
+// real package with `go test -overlay` (nothing is written into /repo); the real
+// function is called on a corpus instruction of that kind whose operand slot holds
+// a value used nowhere else, and must behave as the contract says.
+//
+// Form B (functional contracts over scalars): a template per function
+// (/verif/replay/formb/<pkg>.<Func>.go.tmpl) names the contract expressions whose
+// model values it needs (`//govc:query name expr`); they are evaluated in the
+// function's entry state, read from the solver's model of the failed obligation
+// with (get-value), substituted into the template, and the real function is run on
+// that input; the template states the postcondition natively.
+
+import (
+	"bytes"
+	"context"
+	"encoding/json"
+	"fmt"
+	"os"
+	"os/exec"
+	"path/filepath"
+	"regexp"
+	"strings"
+	"time"
+)
+
+var replayDir = filepath.Join(verifDir, "replay")
+
+type formATarget struct {
+	marker string // substring of the obligation base name
+	label  string // clause label preceding Kind.Slot ("" = kind only)
+	fn     string
+	pkg    string // package dir relative to /repo
+	tmpl   string
+}
+
+var formATargets = []formATarget{
+	{".FnReadsFrom.", "reads", "FnReadsFrom", "analysis/lang", "lang_replay_test.go.tmpl"},
+	{".FnWritesTo.", "writes", "FnWritesTo", "analysis/lang", "lang_replay_test.go.tmpl"},
+	{".InstrSwitch.", "dispatch", "InstrSwitch", "analysis/lang", "lang_replay_test.go.tmpl"},
+	{".preTraversalVisitValuesInstruction.", "visits", "preTraversalVisitValuesInstruction", "analysis/reachability", "reachability_replay_test.go.tmpl"},
+}
+
+// Each replay compiles and runs a test of a /repo package (10-60 s); a run that
+// refutes dozens of obligations at once (a whole function reverted) replays the
+// first few and marks the rest as not replayed.
+var replayBudget = 4
+var replayCache = map[string]map[string]any{}
 
 func tryReplay(prop string, o *Obligation, res *runResult) map[string]any {
-	return nil
+	if os.Getenv("GOVC_NOREPLAY") != "" {
+		return nil
+	}
+	bn := baseName(o.Name)
+	if replayBudget <= 0 {
+		return map[string]any{"fails_on_real_code": false, "note": "not replayed: replay budget of this run used up by earlier violations"}
+	}
+	for _, t := range formATargets {
+		if !strings.Contains(bn, t.marker) {
+			continue
+		}
+		parts := strings.Split(bn, ".")
+		li := -1
+		for i, p := range parts {
+			if p == t.label {
+				li = i
+			}
+		}
+		if li < 0 && t.fn == "InstrSwitch" && strings.HasSuffix(bn, ".nopanic") {
+			// the panic obligation is not tied to one kind: try every instruction of the corpus
+			return replayFormA(t, "*", "", bn)
+		}
+		if li < 0 || li+1 >= len(parts) {
+			return nil
+		}
+		kind, slot := parts[li+1], ""
+		if li+2 < len(parts) {
+			slot = parts[li+2]
+		}
+		return replayFormA(t, kind, slot, bn)
+	}
+	return replayFormB(o, res)
+}
+
+func renderOverlay(tmplPath, destInRepo, name string, subst map[string]string) (ovPath string, err error) {
+	b, err := os.ReadFile(tmplPath)
+	if err != nil {
+		return "", err
+	}
+	src := string(b)
+	if strings.Contains(src, "//COMMON//") {
+		cb, err := os.ReadFile(filepath.Join(replayDir, "forma", "common.go.txt"))
+		if err != nil {
+			return "", err
+		}
+		src = strings.Replace(src, "//COMMON//", string(cb), 1)
+	}
+	for k, v := range subst {
+		src = strings.ReplaceAll(src, "{{"+k+"}}", v)
+	}
+	dir := filepath.Join(workDir, "replay")
+	os.MkdirAll(dir, 0o755)
+	testFile := filepath.Join(dir, sym(name)+"_test.go")
+	if err := os.WriteFile(testFile, []byte(src), 0o644); err != nil {
+		return "", err
+	}
+	ov := map[string]any{"Replace": map[string]string{filepath.Join(repoDir, destInRepo, "zz_govc_replay_test.go"): testFile}}
+	ovPath = filepath.Join(dir, sym(name)+".overlay.json")
+	jb, _ := json.Marshal(ov)
+	return ovPath, os.WriteFile(ovPath, jb, 0o644)
+}
+
+func runReplayTest(ovPath, pkg string, env []string) (string, error) {
+	ctx, cancel := context.WithTimeout(context.Background(), 240*time.Second)
+	defer cancel()
+	cmd := exec.CommandContext(ctx, "go", "test", "-v", "-overlay", ovPath, "-vet=off", "-count=1", "-timeout", "180s", "-run", "TestGovcReplay", "./"+pkg+"/")
+	cmd.Dir = repoDir
+	cmd.Env = append(os.Environ(), "GOFLAGS=-mod=mod", "GOPROXY=off", "GOSUMDB=off", "GOTOOLCHAIN=local")
+	cmd.Env = append(cmd.Env, env...)
+	var out bytes.Buffer
+	cmd.Stdout = &out
+	cmd.Stderr = &out
+	err := cmd.Run()
+	return out.String(), err
+}
+
+func replayLines(out string) (lines []string, fails string, holds bool, errLine string) {
+	for _, l := range strings.Split(out, "\n") {
+		l = strings.TrimSpace(l)
+		if i := strings.Index(l, "REPLAY-"); i >= 0 {
+			l = l[i:]
+			lines = append(lines, l)
+			switch {
+			case strings.HasPrefix(l, "REPLAY-FAILS"):
+				fails = strings.TrimSpace(strings.TrimPrefix(l, "REPLAY-FAILS"))
+			case strings.HasPrefix(l, "REPLAY-HOLDS"):
+				holds = true
+			case strings.HasPrefix(l, "REPLAY-ERROR"):
+				errLine = l
+			}
+		}
+	}
+	if len(lines) > 40 {
+		lines = append(lines[:20], lines[len(lines)-20:]...)
+	}
+	return
+}
+
+func replayFormA(t formATarget, kind, slot, name string) map[string]any {
+	key := t.fn + "|" + kind + "|" + slot
+	if r, ok := replayCache[key]; ok {
+		return r
+	}
+	replayBudget--
+	r := replayFormA1(t, kind, slot, name)
+	replayCache[key] = r
+	return r
+}
+
+func replayFormA1(t formATarget, kind, slot, name string) map[string]any {
+	ov, err := renderOverlay(filepath.Join(replayDir, "forma", t.tmpl), t.pkg, name, nil)
+	if err != nil {
+		return map[string]any{"form": "A", "error": err.Error(), "fails_on_real_code": false}
+	}
+	env := []string{"GOVC_REPLAY_FUNC=" + t.fn, "GOVC_REPLAY_KIND=" + kind, "GOVC_REPLAY_SLOT=" + slot}
+	out, _ := runReplayTest(ov, t.pkg, env)
+	lines, fails, holds, errLine := replayLines(out)
+	r := map[string]any{
+		"form":               "A (witness corpus /verif/replay/corpus run through the real function)",
+		"target":             t.fn,
+		"kind":               kind,
+		"slot":               slot,
+		"command":            fmt.Sprintf("cd /repo && %s go test -v -overlay %s -vet=off -count=1 -run TestGovcReplay ./%s/", strings.Join(env, " "), ov, t.pkg),
+		"output":             lines,
+		"fails_on_real_code": fails != "",
+	}
+	if fails != "" {
+		r["failing_input"] = fails
+	} else if holds {
+		r["note"] = "the real function behaves as the contract says on every corpus witness of this kind/slot: the refutation does not replay (the corpus may lack the distinguishing shape)"
+	} else if errLine != "" || len(lines) == 0 {
+		r["note"] = "replay harness could not run: " + errLine + firstLines(out, 6)
+	}
+	return r
+}
+
+func firstLines(s string, n int) string {
+	ls := strings.Split(s, "\n")
+	if len(ls) > n {
+		ls = ls[:n]
+	}
+	return " | " + strings.Join(ls, " | ")
+}
+
+// ---------------------------------------------------------------------------
+
+var queryRe = regexp.MustCompile(`(?m)^//govc:query\s+(\w+)\s+(.+)$`)
+var pkgDirRe = regexp.MustCompile(`(?m)^//govc:package\s+(\S+)$`)
+
+func replayFormB(o *Obligation, res *runResult) map[string]any {
+	c := res.ctxs[o]
+	if c == nil || c.fn == nil || c.fn.Pkg == nil {
+		return nil
+	}
+	short := c.fn.Pkg.Pkg.Name() + "." + strings.NewReplacer("(", "", ")", "", "*", "").Replace(c.fn.RelString(c.fn.Pkg.Pkg))
+	tmplPath := filepath.Join(replayDir, "formb", short+".go.tmpl")
+	tb, err := os.ReadFile(tmplPath)
+	if err != nil {
+		return nil // no harness for this function
+	}
+	r := map[string]any{"form": "B (solver model run through the real function)", "template": tmplPath, "fails_on_real_code": false}
+	hasSat := false
+	for _, sr := range o.Results {
+		if sr.Verdict == "sat" && !strings.Contains(sr.Solver, "ematch") {
+			hasSat = true
+		}
+	}
+	if !hasSat {
+		r["note"] = "no solver produced a model for this obligation (verdict " + o.Verdict + ")"
+		return r
+	}
+	env := c.ss().env
+	if env == nil {
+		r["note"] = "no entry environment"
+		return r
+	}
+	qs := queryRe.FindAllStringSubmatch(string(tb), -1)
+	var names, terms []string
+	for _, q := range qs {
+		e, err := parseSpecExpr(strings.TrimSpace(q[2]))
+		if err != nil {
+			r["note"] = "query " + q[1] + ": " + err.Error()
+			return r
+		}
+		v, err := c.evalSpec(e, env)
+		if err != nil {
+			r["note"] = "query " + q[1] + ": " + err.Error()
+			return r
+		}
+		names = append(names, q[1])
+		terms = append(terms, v.S)
+	}
+	script := c.script(o, nil)
+	if i := strings.LastIndex(script, "(check-sat)"); i >= 0 {
+		script = script[:i]
+	}
+	script += "(check-sat)\n"
+	for _, t := range terms {
+		script += "(get-value (" + t + "))\n"
+	}
+	dir := filepath.Join(workDir, "replay")
+	os.MkdirAll(dir, 0o755)
+	f := filepath.Join(dir, sym(baseName(o.Name))+".model.smt2")
+	os.WriteFile(f, []byte(script), 0o644)
+	ctx, cancel := context.WithTimeout(context.Background(), 60*time.Second)
+	defer cancel()
+	outB, _ := exec.CommandContext(ctx, "z3-new", "-T:50", "-smt2", f).CombinedOutput()
+	outLines := strings.Split(strings.TrimSpace(string(outB)), "\n")
+	if len(outLines) == 0 || strings.TrimSpace(outLines[0]) != "sat" {
+		r["note"] = "model query did not return sat: " + firstLines(string(outB), 3)
+		return r
+	}
+	vals := parseGetValues(strings.Join(outLines[1:], "\n"), len(terms))
+	if len(vals) != len(terms) {
+		r["note"] = "could not parse model values: " + firstLines(string(outB), 6)
+		return r
+	}
+	subst := map[string]string{}
+	model := map[string]string{}
+	for i, n := range names {
+		subst[n] = vals[i]
+		model[n] = vals[i]
+	}
+	r["model"] = model
+	pkg := strings.TrimPrefix(c.fn.Pkg.Pkg.Path(), repoMod+"/")
+	if m := pkgDirRe.FindStringSubmatch(string(tb)); m != nil {
+		pkg = m[1]
+	}
+	ov, err := renderOverlay(tmplPath, pkg, baseName(o.Name), subst)
+	if err != nil {
+		r["note"] = err.Error()
+		return r
+	}
+	replayBudget--
+	out, _ := runReplayTest(ov, pkg, nil)
+	lines, fails, holds, errLine := replayLines(out)
+	r["command"] = fmt.Sprintf("cd /repo && go test -v -overlay %s -vet=off -count=1 -run TestGovcReplay ./%s/", ov, pkg)
+	r["output"] = lines
+	if fails != "" {
+		r["fails_on_real_code"] = true
+		r["failing_input"] = fails
+	} else if holds {
+		r["note"] = "the real function satisfies the postcondition on the model's input: the refutation does not replay"
+	} else {
+		r["note"] = "replay harness could not run: " + errLine + firstLines(out, 6)
+	}
+	return r
+}
+
+// parseGetValues reads n answers of the form ((term value)) and returns the values
+// as Go literals (integers and booleans only).
+func parseGetValues(s string, n int) []string {
+	var out []string
+	depth, start := 0, -1
+	for i, ch := range s {
+		switch ch {
+		case '(':
+			if depth == 0 {
+				start = i
+			}
+			depth++
+		case ')':
+			depth--
+			if depth == 0 && start >= 0 {
+				ans := s[start : i+1]
+				out = append(out, valueOfAnswer(ans))
+				start = -1
+			}
+		}
+	}
+	if len(out) > n {
+		out = out[:n]
+	}
+	return out
+}
+
+// valueOfAnswer: "((<term> <value>))" -> Go literal of <value>.
+func valueOfAnswer(ans string) string {
+	sx := parseSx(ans)
+	if sx == nil || len(sx.kids) != 1 || len(sx.kids[0].kids) != 2 {
+		return "0"
+	}
+	v := sx.kids[0].kids[1]
+	if v.kids == nil {
+		return v.atom
+	}
+	// (- 5)
+	if len(v.kids) == 2 && v.kids[0].atom == "-" && v.kids[1].kids == nil {
+		return "-" + v.kids[1].atom
+	}
+	return v.String()
 }
